@@ -527,6 +527,10 @@ func TestRun(t *testing.T) {
 				if i >= len(jobs) {
 					return
 				}
+				if rec.NViolations() > 12 {
+					rec.Count("cases_skipped_after_violations", 1)
+					continue
+				}
 				j := jobs[i]
 				period := periods[i%len(periods)]
 				layer := j.tr + "-keepalive"
